@@ -46,7 +46,9 @@ rows.sort(key=key)
 out = ['# Independent seeded changes vs. the quick checks', '',
        'Produced by `seeded/run.sh` + `tools/seeded_results.py` (each patch applied to a scratch copy of /repo, never to /repo; quick tier, VERIF_SEED=1).',
        'Each change was written by a fresh sub-agent that saw only the property text and its own worktree; `meta.json` in each',
-       'directory records what it needs to manifest and what I confirmed (builds, golib suite passes, demo fails with / passes without).', '',
+       'directory records what it needs to manifest and what I confirmed (builds, golib suite passes, demo fails with / passes without).',
+       'A row that says "missed by the checks as they were when the change arrived" was MISSED (or, for C19-12, INCONCLUSIVE) in the sweep made on arrival and is',
+       'detected by the strengthened check; DESIGN.md 6.4 says which workload closed it. Rows of rounds 1-5 are carried over from the sweep recorded at commit e2d56be.', '',
        '| change | property | result | engine that reported first | signature | what the change is |', '|---|---|---|---|---|---|']
 for r in rows:
     out.append('| %s | %s | %s | %s | `%s` | %s |' % r)
